@@ -318,6 +318,32 @@ pub fn family(fam: usize, n: usize) -> (Vec<u8>, &'static str) {
             }
             (p, "dname-pointer-chain(rejected)")
         }
+        13 => {
+            // a run of pointers, each to the one before, parked in opaque TXT data, and SRV records whose target
+            // is a pointer to the end of the run: all opaque to the validator (accepted, a few steps per
+            // record); expensive as soon as SRV targets (or any other opaque data) are resolved without the
+            // indirection budget
+            let run = (n / 40).clamp(20, 4000);
+            let mut p = hdr(0x8000, 0, 0, 0);
+            p.extend_from_slice(&[1, b'q', 0, 0, 1, 0, 1]);
+            p.extend_from_slice(&[0xc0, 12, 0, 16, 0, 1, 0, 0, 0, 0]);
+            p.extend_from_slice(&((2 * run) as u16).to_be_bytes());
+            let mut prev = 12;
+            for _ in 0..run {
+                let at = p.len();
+                p.extend_from_slice(&ptr(prev));
+                prev = at;
+            }
+            let k = (n.saturating_sub(p.len()) / 20).min(65000);
+            for _ in 0..k {
+                p.extend_from_slice(&[0xc0, 12, 0, 33, 0, 1, 0, 0, 0, 0, 0, 8, 0, 1, 0, 2, 0, 80]);
+                p.extend_from_slice(&ptr(prev));
+            }
+            let an = k + 1;
+            p[6] = (an >> 8) as u8;
+            p[7] = an as u8;
+            (p, "srv-targets-into-pointer-run")
+        }
         _ => {
             // MX records: 2-byte preference + chained name
             let k = budget / 16;
@@ -334,7 +360,7 @@ pub fn family(fam: usize, n: usize) -> (Vec<u8>, &'static str) {
     }
 }
 
-pub const NFAM: usize = 13;
+pub const NFAM: usize = 14;
 
 fn bound_check(bytes: &[u8], what: &str, st: &mut Stats) -> PResult {
     let (s, ok) = match steps_of(bytes) {
@@ -510,7 +536,7 @@ pub fn replay_c18(data: &[u8]) -> PResult {
 pub fn check_c18(ctx: &Ctx, known: &KnownFindings) -> Report {
     let mut rep = Report::new("C18");
     let ks = known_sigs(known, "C18");
-    rep.rule = format!("step counter (verif_hooks: one step per label/pointer followed, per record, per question, per EDNS option) across DNSSector::parse. Deterministic part: 13 adversarial families (16-pointer chains into a 255-byte name as owner / NS / SOA / MX names, maximal literal names, dense empty options with one code and with pairwise different codes, 11-byte records of pairwise different types, pairwise different literal owners, three rejected ladder/huge-name shapes, a chain of DNAME records whose data is a pointer to the previous one's data - rejected) at sizes 64 .. 65535 .. 200000 (thorough: .. 1 MB), each accepted by the parser. Generated part: the C01 input stream and the families at drawn sizes with 1-3 damaged bytes. Oracle: steps <= {}*len + {} for every input, and per family ratio(len ~65535) <= 1.25*ratio(len ~4096) + 1 (no super-linear growth). Cross-check without the hook: machine instructions of a process that builds and parses each family (cachegrind, --cache-sim=no) at 15000/30000/60000 bytes (thorough: also 4000/8000/16000 and 50000/100000/200000): instructions per additional byte between the two larger sizes <= 1.5 x that between the two smaller sizes + 50. Non-trivial: the parser executes >= len steps; distinct = hash of input.", SLOPE, CONST);
+    rep.rule = format!("step counter (verif_hooks: one step per label/pointer followed, per record, per question, per EDNS option) across DNSSector::parse. Deterministic part: 14 adversarial families (16-pointer chains into a 255-byte name as owner / NS / SOA / MX names, maximal literal names, dense empty options with one code and with pairwise different codes, 11-byte records of pairwise different types, pairwise different literal owners, three rejected ladder/huge-name shapes, a chain of DNAME records whose data is a pointer to the previous one's data - rejected; SRV records whose target points into a long run of chained pointers parked in TXT data - opaque today) at sizes 64 .. 65535 .. 200000 (thorough: .. 1 MB), each accepted by the parser. Generated part: the C01 input stream and the families at drawn sizes with 1-3 damaged bytes. Oracle: steps <= {}*len + {} for every input, and per family ratio(len ~65535) <= 1.25*ratio(len ~4096) + 1 (no super-linear growth). Cross-check without the hook: machine instructions of a process that builds and parses each family (cachegrind, --cache-sim=no) at 15000/30000/60000 bytes (thorough: also 4000/8000/16000 and 50000/100000/200000): instructions per additional byte between the two larger sizes <= 1.5 x that between the two smaller sizes + 50. Non-trivial: the parser executes >= len steps; distinct = hash of input.", SLOPE, CONST);
     rep.assumptions = vec![
         "the counter measures the instrumented validator loops only (name walkers, option loop, per-record/per-question entry); an un-instrumented new loop would be invisible here".into(),
         "constant 32 derives from the policy: <= 16 pointers + <= 128 labels per name walk, densest legal packing two chained names per 14-byte NS record (~20.7 steps/byte)".into(),
